@@ -17,7 +17,7 @@ from liesel.goose.pytree import register_dataclass_as_pytree
 from simkit import model_world as M
 from simkit.core import EventLog, SutError, Violations, canon, sha, tree_digest
 
-RUN_CAP_S = 240
+RUN_CAP_S = 900
 MODES = ["eager", "eager", "jit", "vmap", "jit_vmap"]
 
 
